@@ -1220,6 +1220,123 @@ theorem get?_last_log (fs : FS) (init : List AFile) (last : AFile) (h : RepL fs 
 
 theorem lineBytes_ne_nil (it : MItem) : lineBytes it ≠ [] := by simp [lineBytes]
 
+/-! ### the cached position of a long-lived searcher (invariant; used by the writer theorems below) -/
+
+/-- what a cached position promises: the cached file is in the directory or older than everything in it; if it is in the
+directory, the cached second is one of its index entries, and if it is its first entry, everything in the files before it is
+earlier than that second -/
+def CacheInv (al : List AFile) (c : Cache) : Prop :=
+  ∀ fid, c.file = some fid →
+    (fid ∈ al.map (·.id) ∨ ∀ f ∈ al, fid.lt f.id = true) ∧
+    ∀ A x B, al = A ++ x :: B → x.id = fid →
+      (∃ g ∈ x.groups, g.1 = c.curSec) ∧
+      ∀ g gs, x.groups = g :: gs → g.1 = c.curSec → ∀ y ∈ A, ∀ g' ∈ y.groups, g'.1 < c.curSec
+
+theorem cacheInv_empty (al : List AFile) : CacheInv al {} := by
+  intro fid hf; simp at hf
+
+
+theorem snoc_eq_append_cons {α} (init : List α) (last : α) (A : List α) (x : α) (B : List α) (h : init ++ [last] = A ++ x :: B) :
+    (B = [] ∧ A = init ∧ x = last) ∨ ∃ B'', B = B'' ++ [last] ∧ init = A ++ x :: B'' := by
+  cases hB : B.reverse with
+  | nil =>
+    have : B = [] := by simpa using hB
+    subst this
+    left
+    have := snoc_inj h
+    exact ⟨rfl, this.1.symm, this.2.symm⟩
+  | cons b r =>
+    right
+    have hB' : B = r.reverse ++ [b] := by
+      have := congrArg List.reverse hB; simpa using this
+    rw [hB'] at h
+    have : init ++ [last] = (A ++ x :: r.reverse) ++ [b] := by simpa [List.append_assoc] using h
+    have := snoc_inj this
+    exact ⟨r.reverse, by rw [hB', this.2], this.1⟩
+
+/-- the last file gets more index entries / lines: a cached position stays good -/
+theorem CacheInv.modLast {init : List AFile} {last last' : AFile} {c : Cache} (h : CacheInv (init ++ [last]) c)
+    (hid : last'.id = last.id) (hext : ∃ ext, last'.groups.map (·.1) = last.groups.map (·.1) ++ ext) : CacheInv (init ++ [last']) c := by
+  obtain ⟨ext, hext⟩ := hext
+  intro fid hfid
+  obtain ⟨ha, hb⟩ := h fid hfid
+  refine ⟨?_, ?_⟩
+  · rcases ha with ha | ha
+    · left; simpa [hid] using ha
+    · right
+      intro f hf
+      rcases List.mem_append.mp hf with h1 | h1
+      · exact ha f (by simp [h1])
+      · simp only [List.mem_singleton] at h1; subst h1; rw [hid]; exact ha last (by simp)
+  · intro A' x' B' hal' hx'
+    rcases snoc_eq_append_cons init last' A' x' B' hal' with ⟨hB, hA, hx⟩ | ⟨B'', hB, hinit⟩
+    · rw [hx] at hx' ⊢
+      rw [hA]
+      obtain ⟨⟨g0, hg0, hg0s⟩, hearly⟩ := hb init last [] rfl (by rw [← hid]; exact hx')
+      have hmem : c.curSec ∈ last'.groups.map (·.1) := by
+        rw [hext]; exact List.mem_append.mpr (Or.inl (List.mem_map.mpr ⟨g0, hg0, hg0s⟩))
+      obtain ⟨g1, hg1, hg1s⟩ := List.mem_map.mp hmem
+      refine ⟨⟨g1, hg1, hg1s⟩, ?_⟩
+      intro g' gs' hg' hg's y hy
+      -- the first group of `last` has the same second as the first group of `last'`
+      cases hl : last.groups with
+      | nil => rw [hl] at hg0; simp at hg0
+      | cons gl gls =>
+        have : gl.1 = g'.1 := by
+          rw [hl, hg'] at hext
+          simp only [List.map_cons, List.cons_append, List.cons.injEq] at hext
+          exact hext.1.symm
+        exact hearly gl gls hl (this.trans hg's) y hy
+    · subst hB
+      have := hb A' x' (B'' ++ [last]) (by rw [hinit]; simp) hx'
+      exact this
+
+/-- the oldest files go, a new file with a greater name is added: a cached position stays good -/
+theorem CacheInv.dropNew {al : List AFile} {c : Cache} (h : CacheInv al c) (hs : IdsSorted (al.map (·.id))) (hne : al ≠ []) (q : Nat) (nf : FileId)
+    (hgt : ∀ g ∈ al.map (·.id), g.lt nf = true) : CacheInv (al.drop q ++ [AFile.new nf]) c := by
+  intro fid hfid
+  obtain ⟨ha, hb⟩ := h fid hfid
+  -- the cached file is not the new one
+  have hlt : fid.lt nf = true := by
+    rcases ha with ha | ha
+    · exact hgt fid ha
+    · cases al with
+      | nil => exact absurd rfl hne
+      | cons a r => exact FileId.lt_trans (ha a (by simp)) (hgt a.id (by simp))
+  refine ⟨?_, ?_⟩
+  · rcases ha with ha | ha
+    · obtain ⟨x, hx, hxid⟩ := List.mem_map.mp ha
+      have hxs : x ∈ al.take q ++ al.drop q := by rw [List.take_append_drop]; exact hx
+      rcases List.mem_append.mp hxs with h1 | h1
+      · right
+        intro f hf
+        rcases List.mem_append.mp hf with h2 | h2
+        · have hs' := hs
+          rw [← List.take_append_drop q al, List.map_append, IdsSorted, List.pairwise_append] at hs'
+          rw [← hxid]
+          exact hs'.2.2 x.id (List.mem_map.mpr ⟨x, h1, rfl⟩) f.id (List.mem_map.mpr ⟨f, h2, rfl⟩)
+        · simp only [List.mem_singleton] at h2; subst h2; exact hlt
+      · left
+        rw [List.map_append]
+        exact List.mem_append.mpr (Or.inl (List.mem_map.mpr ⟨x, h1, hxid⟩))
+    · right
+      intro f hf
+      rcases List.mem_append.mp hf with h2 | h2
+      · exact ha f (List.mem_of_mem_drop h2)
+      · simp only [List.mem_singleton] at h2; subst h2; exact hlt
+  · intro A' x' B' hal' hx'
+    rcases snoc_eq_append_cons (al.drop q) (AFile.new nf) A' x' B' hal' with ⟨_, _, hx⟩ | ⟨B'', hB, hdrop⟩
+    · exfalso
+      rw [hx] at hx'
+      simp only [AFile.new] at hx'
+      rw [← hx', FileId.lt_irrefl] at hlt
+      simp at hlt
+    · have hal : al = (al.take q ++ A') ++ x' :: B'' := by
+        rw [List.append_assoc, ← hdrop, List.take_append_drop]
+      obtain ⟨h1, h2⟩ := hb (al.take q ++ A') x' B'' hal hx'
+      exact ⟨h1, fun g gs hg hgs y hy => h2 g gs hg hgs y (List.mem_append.mpr (Or.inr hy))⟩
+
+
 /-- the second half of `write`: index entry if needed, lines, roll-over by size -/
 theorem writeTail_inv (w : Writer) (fs1 : FS) (init1 : List AFile) (last1 : AFile) (B N ts : Nat) (items : List MItem)
     (hrep : RepL fs1 (init1 ++ [last1])) (hids : IdsSorted ((init1 ++ [last1]).map (·.id)))
@@ -1230,20 +1347,22 @@ theorem writeTail_inv (w : Writer) (fs1 : FS) (init1 : List AFile) (last1 : AFil
     (hgood : ∀ it ∈ items, GoodItem { it with ts := ts }) :
     ∃ al', WInv (w.writeTail fs1 last1.id ts items).1 (fs1.applyAll (w.writeTail fs1 last1.id ts items).2) al'
       (B + ((items.map (fun it => { it with ts := ts })).flatMap lineBytes).length) (N + items.length) ∧
-      ∃ k, al'.flatMap AFile.items = ((init1 ++ [last1]).flatMap AFile.items ++ items.map (fun (it : MItem) => ({ it with ts := ts } : MItem))).drop k := by
+      (∃ k, al'.flatMap AFile.items = ((init1 ++ [last1]).flatMap AFile.items ++ items.map (fun (it : MItem) => ({ it with ts := ts } : MItem))).drop k) ∧
+      ∀ c, CacheInv (init1 ++ [last1]) c → CacheInv al' c := by
   have hlive := haok.live last1 (by simp)
   have hpos : ((fs1.logs.get? last1.id).getD []).length = last1.log.length := by
     rw [get?_last_log fs1 init1 last1 hrep hids]; rfl
   -- phase 2: the index entry
-  obtain ⟨last2, gi, gl, hid2, hit2, hg2, hgl, hrep2, haok2⟩ :
-      ∃ last2 : AFile, ∃ gi gl, last2.id = last1.id ∧ last2.items = last1.items ∧ last2.groups = gi ++ [gl] ∧ gl.1 = ts / 1000 ∧
+  obtain ⟨last2, gi, gl, hid2, hit2, hc2, hg2, hgl, hrep2, haok2⟩ :
+      ∃ last2 : AFile, ∃ gi gl, last2.id = last1.id ∧ last2.items = last1.items ∧
+        (∀ c, CacheInv (init1 ++ [last1]) c → CacheInv (init1 ++ [last2]) c) ∧ last2.groups = gi ++ [gl] ∧ gl.1 = ts / 1000 ∧
         RepL (fs1.applyAll (if ts / 1000 > w.latest ∨ last1.log.length = 0 then
             [Act.append true last1.id (be64 (ts / 1000)), Act.append true last1.id (be64 last1.log.length)] else [])) (init1 ++ [last2]) ∧
         AOk (ts / 1000) (init1 ++ [last2]) B N := by
     by_cases hc : ts / 1000 > w.latest ∨ last1.log.length = 0
     · simp only [hc, if_true]
       exact ⟨{ last1 with groups := last1.groups ++ [(ts / 1000, [])] }, last1.groups, (ts / 1000, []), rfl,
-        by simp [AFile.items, groupsItems], rfl, rfl,
+        by simp [AFile.items, groupsItems], fun c hc => hc.modLast rfl ⟨[ts / 1000], by simp⟩, rfl, rfl,
         repL_entry fs1 init1 last1 hrep hids hlive (ts / 1000), haok.entry (ts / 1000) hsec⟩
     · simp only [hc, if_false]
       have hc' : ts / 1000 = w.latest ∧ last1.log.length ≠ 0 := by omega
@@ -1253,7 +1372,7 @@ theorem writeTail_inv (w : Writer) (fs1 : FS) (init1 : List AFile) (last1 : AFil
         simp [AFile.log, e, hlive.1, groupsBytes]
       obtain ⟨gi, gl, hg⟩ : ∃ gi gl, last1.groups = gi ++ [gl] :=
         ⟨last1.groups.dropLast, last1.groups.getLast hne, (List.dropLast_concat_getLast hne).symm⟩
-      refine ⟨last1, gi, gl, rfl, rfl, hg, ?_, by simpa [FS.applyAll] using hrep, haok.mono hsec (Nat.le_refl _) (Nat.le_refl _)⟩
+      refine ⟨last1, gi, gl, rfl, rfl, fun c hc => hc, hg, ?_, by simpa [FS.applyAll] using hrep, haok.mono hsec (Nat.le_refl _) (Nat.le_refl _)⟩
       rw [hlast hc'.1 gi gl hg, hc'.1]
   have hids2 : IdsSorted ((init1 ++ [last2]).map (·.id)) := by
     simpa [hid2] using hids
@@ -1281,6 +1400,10 @@ theorem writeTail_inv (w : Writer) (fs1 : FS) (init1 : List AFile) (last1 : AFil
     have e1 : last3.items = last2.items ++ items' := by
       rw [hlast3]; simp [AFile.items, groupsItems, hg2]
     simp only [List.flatMap_append, List.flatMap_cons, List.flatMap_nil, List.append_nil, e1, hit2, List.append_assoc]
+  have hc3 : ∀ c, CacheInv (init1 ++ [last1]) c → CacheInv (init1 ++ [last3]) c := by
+    intro c hc
+    refine (hc2 c hc).modLast (by rw [hlast3]) ⟨[], ?_⟩
+    rw [hlast3, hg2]; simp
   have hids3 : IdsSorted ((init1 ++ [last3]).map (·.id)) := by
     simpa [hlast3] using hids2
   have hacts3 : items.map (fun it => Act.append false last1.id (lineBytes { it with ts := ts })) =
@@ -1311,11 +1434,13 @@ theorem writeTail_inv (w : Writer) (fs1 : FS) (init1 : List AFile) (last1 : AFil
   by_cases hroll : ((fs3.logs.get? last1.id).getD []).length ≥ w.maxSize
   · simp only [hroll, if_true]
     have hr := roll_spec fs3 (init1 ++ [last3]) hrep3 hids3 w.maxFiles ts hdays3
-    refine ⟨_, ⟨hr.1, hr.2.1, ⟨_, _, rfl, rfl⟩, ?_, ?_, ?_, ?_⟩, ?_⟩
-    rotate_right
+    refine ⟨_, ⟨hr.1, hr.2.1, ⟨_, _, rfl, rfl⟩, ?_, ?_, ?_, ?_⟩, ?_, ?_⟩
+    rotate_right 2
     · refine ⟨(((init1 ++ [last3]).take (dropCount (init1 ++ [last3]).length w.maxFiles)).flatMap AFile.items).length, ?_⟩
       rw [← hitems3, ← flatMap_drop_eq]
       simp [AFile.new, AFile.items, groupsItems]
+    · intro c hc
+      exact (hc3 c hc).dropNew hids3 (by simp) _ _ (nextFileId_gt fs3 (init1 ++ [last3]) hrep3 hids3 _ hdays3).2
     · intro f hf
       simp only [hmax]
       rcases List.mem_append.mp hf with h1 | h1
@@ -1328,7 +1453,7 @@ theorem writeTail_inv (w : Writer) (fs1 : FS) (init1 : List AFile) (last1 : AFil
       simp [AFile.new] at hg'
     · exact ⟨length_drop_new _ _ hcount.2 _, hcount.2⟩
   · simp only [hroll, if_false, FS.applyAll, List.foldl_nil]
-    refine ⟨init1 ++ [last3], ⟨hrep3, hids3, ⟨init1, last3, rfl, by simp [hid3]⟩, ?_, ?_, ?_, ?_⟩, ⟨0, by rw [hitems3]; rfl⟩⟩
+    refine ⟨init1 ++ [last3], ⟨hrep3, hids3, ⟨init1, last3, rfl, by simp [hid3]⟩, ?_, ?_, ?_, ?_⟩, ⟨0, by rw [hitems3]; rfl⟩, hc3⟩
     · simpa only [hmax] using hdays3
     · simpa only [hmax] using haok3
     · intro init last hal gi' gl' hg'
@@ -1357,19 +1482,20 @@ theorem write_inv (w : Writer) (fs : FS) (al : List AFile) (B N ts : Nat) (items
     (hgood : ∀ it ∈ items, GoodItem { it with ts := ts }) :
     ∃ al', WInv (w.write fs ts items).1 (fs.applyAll (w.write fs ts items).2.1) al'
       (B + ((items.map (fun it => { it with ts := ts })).flatMap lineBytes).length) (N + items.length) ∧
-      ∃ k, al'.flatMap AFile.items = (al.flatMap AFile.items ++ accepted w ts items).drop k := by
+      (∃ k, al'.flatMap AFile.items = (al.flatMap AFile.items ++ accepted w ts items).drop k) ∧
+      ∀ c, CacheInv al c → CacheInv al' c := by
   have hstay : WInv w fs al (B + ((items.map (fun it => { it with ts := ts })).flatMap lineBytes).length) (N + items.length) :=
     ⟨h.rep, h.ids, h.cur, h.days, h.aok.mono (Nat.le_refl _) (Nat.le_add_right _ _) (Nat.le_add_right _ _), h.lastSec, h.count⟩
   obtain ⟨init, last, hal, hcur⟩ := h.cur
   unfold Writer.write accepted
   by_cases hemp : items.isEmpty = true
-  · simp only [hemp, if_true, true_or]; exact ⟨al, by simpa [FS.applyAll] using hstay, 0, by simp⟩
+  · simp only [hemp, if_true, true_or]; exact ⟨al, by simpa [FS.applyAll] using hstay, ⟨0, by simp⟩, fun c hc => hc⟩
   simp only [hemp, Bool.false_eq_true, if_false, false_or]
   by_cases hts : ts = 0
-  · simp only [hts, if_true, true_or]; exact ⟨al, by simpa [FS.applyAll, hts] using hstay, 0, by simp⟩
+  · simp only [hts, if_true, true_or]; exact ⟨al, by simpa [FS.applyAll, hts] using hstay, ⟨0, by simp⟩, fun c hc => hc⟩
   simp only [hts, if_false, hcur, false_or]
   by_cases hold : ts / 1000 < w.latest
-  · simp only [hold, if_true, or_true]; exact ⟨al, by simpa [FS.applyAll] using hstay, 0, by simp⟩
+  · simp only [hold, if_true, or_true]; exact ⟨al, by simpa [FS.applyAll] using hstay, ⟨0, by simp⟩, fun c hc => hc⟩
   simp only [hold, if_false, reduceCtorEq, or_self]
   have hsec : w.latest ≤ ts / 1000 := by omega
   rw [applyAll_append]
@@ -1378,7 +1504,7 @@ theorem write_inv (w : Writer) (fs : FS) (al : List AFile) (B N ts : Nat) (items
     have hdaysAl : ∀ f ∈ al, f.id.day ≤ dayOfSec (ts / 1000) := fun f hf => Nat.le_trans (h.days f hf) (dayOfSec_mono hsec)
     have hr := roll_spec fs al h.rep h.ids w.maxFiles ts hdaysAl
     have haok1 := h.aok.drop_new (dropCount al.length w.maxFiles) (rollActs fs w.maxFiles ts).1
-    obtain ⟨al', hinv, k, hk⟩ := writeTail_inv w (fs.applyAll (rollActs fs w.maxFiles ts).2) (al.drop (dropCount al.length w.maxFiles))
+    obtain ⟨al', hinv, ⟨k, hk⟩, hcache⟩ := writeTail_inv w (fs.applyAll (rollActs fs w.maxFiles ts).2) (al.drop (dropCount al.length w.maxFiles))
       (AFile.new (rollActs fs w.maxFiles ts).1) B N ts items hr.1 hr.2.1
       (by
         intro f hf
@@ -1387,7 +1513,8 @@ theorem write_inv (w : Writer) (fs : FS) (al : List AFile) (B N ts : Nat) (items
         · simp only [List.mem_singleton] at h1; subst h1; simp only [AFile.new]; rw [hr.2.2]; exact Nat.le_refl _)
       haok1 hsec ⟨length_drop_new _ _ h.count.2 _, h.count.2⟩
       (by intro e; omega) hgood
-    refine ⟨al', by simpa [AFile.new] using hinv, ((al.take (dropCount al.length w.maxFiles)).flatMap AFile.items).length + k, ?_⟩
+    refine ⟨al', by simpa [AFile.new] using hinv, ⟨((al.take (dropCount al.length w.maxFiles)).flatMap AFile.items).length + k, ?_⟩,
+      fun c hc => hcache c (hc.dropNew h.ids (by rw [hal]; simp) _ _ (nextFileId_gt fs al h.rep h.ids _ hdaysAl).2)⟩
     rw [hk]
     have e1 : (al.drop (dropCount al.length w.maxFiles) ++ [AFile.new (rollActs fs w.maxFiles ts).1]).flatMap AFile.items =
         (al.flatMap AFile.items).drop ((al.take (dropCount al.length w.maxFiles)).flatMap AFile.items).length := by
@@ -1399,10 +1526,10 @@ theorem write_inv (w : Writer) (fs : FS) (al : List AFile) (B N ts : Nat) (items
     rw [h2, List.length_append]; omega
   · simp only [hroll, if_false]
     rw [hal] at h ⊢
-    obtain ⟨al', hinv, k, hk⟩ := writeTail_inv w fs init last B N ts items h.rep h.ids
+    obtain ⟨al', hinv, ⟨k, hk⟩, hcache⟩ := writeTail_inv w fs init last B N ts items h.rep h.ids
       (fun f hf => Nat.le_trans (h.days f hf) (dayOfSec_mono hsec)) h.aok hsec h.count
       (fun _ gi gl hg => h.lastSec init last rfl gi gl hg) hgood
-    exact ⟨al', by simpa [FS.applyAll] using hinv, k, hk⟩
+    exact ⟨al', by simpa [FS.applyAll] using hinv, ⟨k, hk⟩, hcache⟩
 
 
 /-- a write history: `(ts, items)` per call. Result: the writer, the directory, and the items accepted on the way -/
@@ -1436,7 +1563,7 @@ theorem run_inv (hist : List (Nat × List MItem)) (w : Writer) (fs : FS) (al : L
   | nil => exact ⟨al, by simpa [runWrites, histBytes, histItems] using h, 0, by simp [runWrites]⟩
   | cons p rest ih =>
     obtain ⟨ts, items⟩ := p
-    obtain ⟨al1, hinv1, k1, hk1⟩ := write_inv w fs al B N ts items h (hgood (ts, items) (by simp))
+    obtain ⟨al1, hinv1, ⟨k1, hk1⟩, _⟩ := write_inv w fs al B N ts items h (hgood (ts, items) (by simp))
     obtain ⟨al2, hinv2, k2, hk2⟩ := ih (w.write fs ts items).1 (fs.applyAll (w.write fs ts items).2.1) al1 _ _ hinv1
       (fun p hp => hgood p (by simp [hp]))
     refine ⟨al2, ?_, min k1 (al.flatMap AFile.items ++ accepted w ts items).length + k2, ?_⟩
@@ -2545,19 +2672,6 @@ theorem crash_in_write (w : Writer) (fs : FS) (al : List AFile) (B N ts : Nat) (
 
 /-! ### the cached position of a long-lived searcher -/
 
-/-- what a cached position promises: the cached file is in the directory or older than everything in it; if it is in the
-directory, the cached second is one of its index entries, and if it is its first entry, everything in the files before it is
-earlier than that second -/
-def CacheInv (al : List AFile) (c : Cache) : Prop :=
-  ∀ fid, c.file = some fid →
-    (fid ∈ al.map (·.id) ∨ ∀ f ∈ al, fid.lt f.id = true) ∧
-    ∀ A x B, al = A ++ x :: B → x.id = fid →
-      (∃ g ∈ x.groups, g.1 = c.curSec) ∧
-      ∀ g gs, x.groups = g :: gs → g.1 = c.curSec → ∀ y ∈ A, ∀ g' ∈ y.groups, g'.1 < c.curSec
-
-theorem cacheInv_empty (al : List AFile) : CacheInv al {} := by
-  intro fid hf; simp at hf
-
 theorem firstOffset_none_of_lt (gs : List Group) (bs : Nat) (h : ∀ g ∈ gs, g.1 < bs) : firstOffset gs bs = none := by
   unfold firstOffset
   have : gs.dropWhile (fun g => decide (g.1 < bs)) = [] := by
@@ -2666,5 +2780,114 @@ theorem cache_findStart (fs : FS) (al : List AFile) (hrep : Rep fs al) (hwf : WF
             omega
       · rw [if_neg hmem]
   · rw [if_neg hok]
+
+
+theorem before_of_sorted (al : List AFile) (hs : IdsSorted (al.map (·.id))) (A : List AFile) (x : AFile) (B A' : List AFile) (x' : AFile) (B' : List AFile)
+    (h1 : al = A ++ x :: B) (h2 : al = A' ++ x' :: B') (hid : x'.id = x.id) : ∀ y ∈ A', y ∈ A := by
+  intro y hy
+  have hs2 := hs
+  rw [h2, List.map_append, List.map_cons] at hs2
+  have hylt : y.id.lt x'.id = true :=
+    (List.pairwise_append.mp hs2).2.2 y.id (List.mem_map.mpr ⟨y, hy, rfl⟩) x'.id (by simp)
+  have hyal : y ∈ al := by rw [h2]; simp [hy]
+  rw [h1] at hyal
+  rcases List.mem_append.mp hyal with h | h
+  · exact h
+  · exfalso
+    have hs1 := hs
+    rw [h1, List.map_append, List.map_cons] at hs1
+    rcases List.mem_cons.mp h with e | e
+    · rw [e, hid, FileId.lt_irrefl] at hylt; simp at hylt
+    · have hgt : x.id.lt y.id = true :=
+        (List.pairwise_cons.mp (List.pairwise_append.mp hs1).2.1).1 y.id (List.mem_map.mpr ⟨y, e, rfl⟩)
+      rw [hid] at hylt
+      have := FileId.lt_asymm hgt
+      rw [this] at hylt; simp at hylt
+
+theorem nodup_of_sorted (l : List FileId) (hs : IdsSorted l) : l.Nodup := by
+  unfold IdsSorted at hs
+  exact List.Pairwise.imp (fun {a b} h e => by rw [e, FileId.lt_irrefl] at h; simp at h) hs
+
+theorem decomp_unique (A : List AFile) (x : AFile) (B A' : List AFile) (x' : AFile) (B' : List AFile)
+    (h : A ++ x :: B = A' ++ x' :: B') (hid : x'.id = x.id) (hnd : ((A ++ x :: B).map (·.id)).Nodup) : A = A' ∧ x = x' ∧ B = B' := by
+  induction A generalizing A' with
+  | nil =>
+    cases A' with
+    | nil => simp only [List.nil_append, List.cons.injEq] at h; exact ⟨rfl, h.1, h.2⟩
+    | cons a r =>
+      exfalso
+      simp only [List.nil_append, List.cons_append, List.cons.injEq] at h
+      simp only [List.nil_append, List.map_cons, List.nodup_cons] at hnd
+      apply hnd.1
+      rw [h.2, ← hid]
+      simp
+  | cons a r ih =>
+    cases A' with
+    | nil =>
+      exfalso
+      simp only [List.nil_append, List.cons_append, List.cons.injEq] at h
+      simp only [List.cons_append, List.map_cons, List.nodup_cons] at hnd
+      apply hnd.1
+      rw [h.1, hid]
+      simp
+    | cons a' r' =>
+      simp only [List.cons_append, List.cons.injEq] at h
+      simp only [List.cons_append, List.map_cons, List.nodup_cons] at hnd
+      obtain ⟨e1, e2, e3⟩ := ih r' h.2 hnd.2
+      exact ⟨by rw [h.1, e1], e2, e3⟩
+
+/-- where a fresh search starts, at the level of groups -/
+theorem findStart_groups (fs : FS) (al : List AFile) (hrep : Rep fs al) (hwf : WF al) (bs : Nat) (files : List FileId) (sec off : Nat)
+    (h : findStart fs bs (al.map (·.id)) = some (files, sec, off)) :
+    ∃ A f B, al = A ++ f :: B ∧ files = f.id :: B.map (·.id) ∧ bs ≤ sec ∧ (∃ g ∈ f.groups, g.1 = sec) ∧ ∀ y ∈ A, ∀ g ∈ y.groups, g.1 < bs := by
+  rw [findStart_spec fs al bs (fun f hf => idx_lookup fs f _ (hrep.idxs f hf) (hwf.small f hf) (hwf.tails f hf).2)] at h
+  cases hd : al.dropWhile (fun f => (firstOffset f.groups bs).isNone) with
+  | nil => rw [hd] at h; simp at h
+  | cons f B =>
+    rw [hd] at h
+    simp only [] at h
+    have hal : al = al.takeWhile (fun f => (firstOffset f.groups bs).isNone) ++ f :: B := by
+      rw [← hd, List.takeWhile_append_dropWhile]
+    cases hfo : firstOffset f.groups bs with
+    | none => rw [hfo] at h; simp at h
+    | some p =>
+      rw [hfo] at h
+      simp only [Option.map_some, Option.some.injEq, Prod.mk.injEq] at h
+      obtain ⟨pre, g, post, hgs, hpre, hg, hsec, hoff⟩ := firstOffset_some f.groups bs p.1 p.2 (by rw [hfo])
+      refine ⟨_, f, B, hal, h.1.symm, by rw [← h.2.1, hsec]; exact hg, ⟨g, by rw [hgs]; simp, by rw [← h.2.1, hsec]⟩, ?_⟩
+      intro y hy g' hg'
+      have := takeWhile_all_mem _ _ y hy
+      exact firstOffset_none y.groups bs (by simpa using this) g' hg'
+
+/-- **a long-lived searcher answers like a fresh one**, and its new cached position is again a good one -/
+theorem cached_search_eq_fresh (fs : FS) (al : List AFile) (hrep : Rep fs al) (hwf : WF al) (hlive : ∀ f ∈ al, f.tail = [] ∧ f.idxTail = [])
+    (hs : IdsSorted (al.map (·.id))) (c : Cache) (hinv : CacheInv al c) (b e : Nat) (res : List Char) (n : Nat) :
+    (searchRange fs c b e res).2 = (searchRange fs {} b e res).2 ∧ CacheInv al (searchRange fs c b e res).1 ∧
+    (searchLines fs c b n).2 = (searchLines fs {} b n).2 ∧ CacheInv al (searchLines fs c b n).1 := by
+  have hc := cache_findStart fs al hrep hwf hlive c hinv b
+  have h0 := cache_findStart fs al hrep hwf hlive {} (cacheInv_empty al) b
+  -- the cache after a search that found a start
+  have hnew : ∀ files sec off, findStart fs (b / 1000) (al.map (·.id)) = some (files, sec, off) →
+      CacheInv al { file := files.head?, curSec := sec } := by
+    intro files sec off hf
+    obtain ⟨A, f, B, hal, hfiles, hle, hentry, hearly⟩ := findStart_groups fs al hrep hwf (b / 1000) files sec off hf
+    intro fid hfid
+    simp only [hfiles, List.head?_cons, Option.some.injEq] at hfid
+    refine ⟨Or.inl (by rw [← hfid, hal]; simp), ?_⟩
+    intro A' x' B' hal' hx'
+    obtain ⟨e1, e2, _⟩ := decomp_unique A f B A' x' B' (by rw [← hal, hal']) (by rw [hx', hfid]) (by rw [← hal]; exact nodup_of_sorted _ hs)
+    subst e1 e2
+    refine ⟨hentry, ?_⟩
+    intro g gs _ _ y hy g' hg'
+    have := hearly y hy g' hg'
+    simp only []
+    omega
+  unfold searchRange searchLines
+  rw [hc, h0]
+  cases hf : findStart fs (b / 1000) (al.map (·.id)) with
+  | none => exact ⟨rfl, hinv, rfl, hinv⟩
+  | some p =>
+    obtain ⟨files, sec, off⟩ := p
+    exact ⟨rfl, hnew files sec off hf, rfl, hnew files sec off hf⟩
 
 end Sentinel.MLog
